@@ -1,12 +1,12 @@
 """C08 — paths and strings split over several records are reassembled exactly, once."""
 from .. import vlib
 from ..vlib import cN, clist
-from ..translate import tr_pairing, tr_decoders, tr_handlers
+from ..translate import tr_pairing, tr_decoders, tr_handlers, tr_trace
 from ..harness import dumps as D
 from . import decoder_common as dc
 
-TRANSLATORS = [tr_handlers.translate, tr_decoders.translate, tr_pairing.translate]
-MODEL_TARGETS = ['theories/ChunkCases.vo', 'theories/DecoderCases.vo', 'theories/DecoderWindowCases.vo']
+TRANSLATORS = [tr_handlers.translate, tr_decoders.translate, tr_pairing.translate, tr_trace.translate]
+MODEL_TARGETS = ['theories/ChunkCases.vo', 'theories/ChunkWindowCases.vo', 'theories/TraceRefine.vo', 'theories/DecoderCases.vo', 'theories/DecoderWindowCases.vo']
 PROOF_TARGETS = ['props/C08.vo']
 PROP_FILE = 'props/C08.v'
 ASSUMPTIONS = [
@@ -19,6 +19,8 @@ ASSUMPTIONS = [
 ]
 HEADER = ('From Coq Require Import NArith List.\nFrom Kd Require Import theories.Base theories.Harness '
           'theories.ChunkCases.\nImport ListNotations.\nOpen Scope N_scope.')
+
+HEADERW = HEADER.replace('theories.ChunkCases', 'theories.ChunkWindowCases')
 
 
 def words(b):
@@ -82,7 +84,7 @@ def run(ctx, model_ok):
                 metas.append((kind, a, b, text, evs, foreign))
     res = vlib.run_impl('run_chunks.py', {'cases': cases})['results']
     ctx.evaluations = len(cases)
-    coq = []
+    coq, coqw = [], []
     for meta, r in zip(metas, res):
         kind, a, b, text, evs = meta[:5]
         if len(meta) == 6:
@@ -94,6 +96,9 @@ def run(ctx, model_ok):
                                     'expected': {'text': text.decode('utf-8', 'replace'), 'id': [a, b]}, 'actual': r,
                                     'why': 'with unrelated same-thread records between the chunks the reassembled text / id / string '
                                            'table is not the one the kernel split, or the trace does not hold its window'})
+            elif 'window' in r:
+                win = clist([f'({cN(c)}, ({q}, {clist([cN(x) for x in ws])}))' for c, q, ws in r['window']])
+                coqw.append(f'({kind}, {cN(r["lookup_code"])}, {win}, ({cN(r["a"])}, {cN(r["b"])}, {vlib.cbytes(bytes.fromhex(r["text"]))}))')
             continue
         ctx.count(('lookup', 'string', 'threadname')[kind] + ':records=%d' % min(len(evs), 4))
         if len(evs) >= 3:
@@ -238,6 +243,12 @@ def run(ctx, model_ok):
             ctx.broken.append(('correspondence', f'case files failed to evaluate: {errors[0]}'))
         for b in bad[:6]:
             ctx.broken.append(('correspondence', {'case': coq[b][:400]}))
+        badw, errorsw = vlib.run_model_cases('C08u', HEADERW, 'kwcase', 'kwcheck', coqw, per_file=60)
+        ctx.traces_validated += len(coqw) - len(badw)
+        if errorsw:
+            ctx.broken.append(('correspondence', f'case files failed to evaluate: {errorsw[0]}'))
+        for b in badw[:6]:
+            ctx.broken.append(('correspondence', {'window with unrelated records': coqw[b][:400]}))
         # the whole window (lookups of several records, lookup-done notices, unrelated records) through the model, which
         # reassembles the paths itself
         dc.correspond_windows(ctx, 'C08w', R, vlib.run_impl('run_decoders.py', {'cases': []})['host'], wmetas, wres)
